@@ -226,7 +226,8 @@ package mcp
 //@ func parseString
 //@   trusted
 //@ func validateOptionalRoutePath
-//@   trusted
+//@   ensures [C14:a_relative_route_filter_is_refused] trim(route) != "" && !prefixof("/", trim(route)) ==> result != nil
+//@   ensures [C14:an_absent_or_absolute_route_filter_passes] (trim(route) == "" || prefixof("/", trim(route))) ==> result == nil
 //@ func validateManagedSelectorLabels
 //@   trusted
 
